@@ -1206,6 +1206,11 @@ func (c *Context) quantize(d, v *Decimal, exp int32) Condition {
 			}
 		} else {
 			nc := c.WithPrecision(uint32(p))
+			// Only the digit count matters for this rounding: the exponent
+			// range of c applies to the quantized result, not to the
+			// intermediate value whose exponent is shifted to 0.
+			nc.MinExponent = MinExponent
+			nc.MaxExponent = MaxExponent
 
 			// The idea here is that the resulting d.Exponent after rounding will be 0. We
 			// have a number of, say, 5 digits, but p (our precision) above is set at, say,
